@@ -263,6 +263,50 @@ def task_dipole_cell():
     return col.pack()
 
 
+class NoBinding(Exception):
+    """the call does not fit the signature (Python would raise TypeError)"""
+
+
+def bind_call(qualname, args, kwargs):
+    """parameter name -> value for a call of the repo function / class `qualname` (for a class: its __init__, without self),
+    using the signature read from the CURRENT source: positional and keyword forms of the same call give the same binding.
+    Defaults are evaluated as literals (anything else stays an ast node)."""
+    node, _, _ = intake.func(qualname)
+    skip = 0
+    if isinstance(node, ast.ClassDef):
+        init = [b for b in node.body if isinstance(b, ast.FunctionDef) and b.name == '__init__']
+        if not init:
+            raise NoBinding(f'{qualname} has no __init__ of its own')
+        node, skip = init[0], 1
+    a = node.args
+    if a.vararg is not None or a.kwonlyargs or a.posonlyargs:
+        raise NoBinding(f'{qualname}: signature with * / keyword-only / positional-only parameters')
+    params = [p.arg for p in a.args][skip:]
+    defaults = dict(zip(params[len(params) - len(a.defaults):], a.defaults)) if a.defaults else {}
+    if len(args) > len(params):
+        raise NoBinding('too many positional arguments')
+    out = dict(zip(params, args))
+    extra = {}
+    for k, v in kwargs.items():
+        if k in out or (k not in params and a.kwarg is None):
+            raise NoBinding(f'unexpected or repeated argument {k}')
+        if k in params:
+            out[k] = v
+        else:
+            extra[k] = v          # collected by the ** parameter
+    if a.kwarg is not None:
+        out['**'] = extra
+    for p in params:
+        if p not in out:
+            if p not in defaults:
+                raise NoBinding(f'missing argument {p}')
+            try:
+                out[p] = ast.literal_eval(defaults[p])
+            except Exception:
+                out[p] = defaults[p]
+    return out
+
+
 def _consts(e):
     out, seen = [], set()
 
